@@ -493,3 +493,73 @@ def rule_unchecked_sibling(ctx, config='dev'):
     r.floor = 6
     r.check_floor()
     return r
+
+
+# ---------------------------------------------------------------- PREFIX-EXHAUST (round 10)
+def rule_prefix_exhaust(ctx, config='dev'):
+    """Rope::starts_with: once every piece of the *argument* has been matched the answer is `true`"""
+    from .offsets import stretch
+    f = ctx.facts(config)
+    r = RuleResult('PREFIX-EXHAUST',
+                   'Rope::starts_with(value) is a prefix test for every division of either rope into pieces: on each path where the '
+                   'iteration over the pieces of the ARGUMENT ends without a mismatch, the function returns the constant `true` (not a '
+                   'test of what is left of the receiver - that would be equality). ReplaceSource advances the original column of a '
+                   'cut chunk exactly where this test succeeds')
+    bodies = [b for b in f.body_list if b.promoted is None and b.d['kind'] != 'Closure' and b.d.get('impl_adt', '').endswith('rope::Rope')
+              and b.path.split('::')[-1] == 'starts_with' and not b.d.get('impl_trait')]
+    if len(bodies) != 1:
+        r.info('not decided: no single inherent `Rope::starts_with` (the prefix test ReplaceSource uses)')
+        return r
+    b = bodies[0]
+    n = 0
+    for pt, t in b.calls():
+        c = t.get('callee') or {}
+        if c.get('name') != 'next' or not t['args']:
+            continue
+        e = b.expr_of_operand(t['args'][0])
+        args = {x[1] for x in walk(e) if x[0] == 'arg'}
+        if args != {2}:
+            continue            # iterates the receiver (or both): exhaustion of the receiver is a different question
+        # the None edge of the match on the result
+        nb = t.get('t')
+        none_targets = []
+        for bb in stretch(b, nb) if nb is not None else []:
+            tt = b.term(bb)
+            if tt['k'] == 'switch':
+                zero = [x[1] for x in tt['targets'] if x[0] == 0]
+                if zero:
+                    none_targets = zero
+                else:                       # `[[1, some]] else none`
+                    none_targets = [tt['otherwise']]
+                break
+        if not none_targets:
+            continue
+        n += 1
+        verdict, what, site = None, None, t['s']
+        for bb in stretch(b, none_targets[0]):
+            for s in b.stmts(bb):
+                if s['k'] == 'assign' and s['p']['l'] == 0 and not s['p']['pr']:
+                    o = s['r'].get('o') if s['r']['k'] == 'use' else None
+                    verdict = bool(o and o['k'] == 'const' and o.get('bool') is True)
+                    what, site = ('the constant true' if verdict else 'a computed value'), s['s']
+                    break
+            if verdict is not None:
+                break
+            tt = b.term(bb)
+            if tt['k'] == 'call' and tt['dest']['l'] == 0 and not tt['dest']['pr']:
+                verdict, what, site = False, 'the result of `%s`' % ((tt.get('callee') or {}).get('path') or 'a call'), tt['s']
+                break
+        if verdict is None:
+            r.site('%s: argument pieces exhausted - result not found on the straight-line path (not decided)' % b.path, t['s'], 'ok',
+                   note='not decided')
+            continue
+        r.site('%s: argument pieces exhausted -> returns %s' % (b.path, what), site, 'ok' if verdict else 'violation')
+        if not verdict:
+            r.violation('%s:exhausted' % b.path, site, b.path,
+                        'when all pieces of the argument have been matched the function returns %s instead of `true`: for a receiver '
+                        'longer than the argument (the normal case of a prefix test) the answer depends on how the argument is divided '
+                        'into pieces - "abcd".starts_with(["ab","c"]) is false - so ReplaceSource does not advance the original column '
+                        'of a cut chunk whose text arrives as a multi-piece rope (a replayed CachedSource)' % what)
+    if n == 0:
+        r.info('not decided: no loop over the pieces of the argument found in Rope::starts_with')
+    return r
